@@ -1071,7 +1071,10 @@ def search_states(run: Run, T, thorough: bool):
             inp = dict(what="state", kind=kind, n_feat=nf, source_dimension=sd, cohort=cohort, style=style,
                        values=random_values(st, rng, style, kind))
             want_t3 = T is not None and r < (1 if not thorough else 4)
-            fails, info = eval_state(inp, collect=(T.collect if want_t3 else None))
+            # (extension) the cohorts with a single-visit individual (r = 1) and with ONE individual (r = 2): the re-centred values
+            # the real step leaves in the state against center / shift (mean ...) of the values before — script lemmas only
+            script_only = T is not None and not want_t3 and kind in KINDS_STEP and r in (1, 2)
+            fails, info = eval_state(inp, collect=(T.collect if want_t3 else (T.collect_script if script_only else None)))
             src = bool(sd)
             m_shift = abs(info.get("mean_before", 0.0))
             nontrivial = (kind in KINDS_STEP and m_shift > 1e-3) or (src and info.get("ortho:mixing-row-nontrivial", False))
@@ -1240,6 +1243,12 @@ class T3:
     def app(self, name, st, i=0, j=0, k=0):
         return "(" + " ".join([name] + [_R(self.arg(p, st, i, j, k)) for p in self.sigs[name]]) + ")"
 
+    def collect_script(self, kind, m, st, inp, after=False):
+        """only the re-centring script lemmas (values before the step are recorded, values after are compared)"""
+        if after:
+            return self.collect(kind, m, st, inp, after=True)
+        self.before = {n: _val(st[n]).reshape(-1).double().tolist() for n in ("xi", "log_v0") + (("n_log_nu",) if kind == "joint" else ())}
+
     def collect(self, kind, m, st, inp, after=False):
         import torch
         k_ = SHORT[kind]
@@ -1254,7 +1263,8 @@ class T3:
             xs = _Rl(b["xi"])
             xi1 = _val(st["xi"]).reshape(-1)
             i = self.rng.randrange(len(b["xi"]))
-            self.add(f"nth {i} (center {xs}) 0", xi1[i], _tolq(1, 2e-6), what="script:xi", **cfg)
+            self.add(f"nth {i} (center {xs}) 0", xi1[i], _tolq(1, 2e-6), what="script:xi", n_ind=len(b["xi"]),
+                     cohort=inp.get("cohort"), **cfg)
             for name in ("log_v0",) + (("n_log_nu",) if kind == "joint" else ()):
                 v1 = _val(st[name]).reshape(-1)
                 k = self.rng.randrange(len(b[name]))
@@ -1534,6 +1544,28 @@ def eval_fit(inp):
         return holder["r"]
 
     model.compute_sufficient_statistics = css
+    # (extension) the mixture model: its own `_center_xi_realizations` is a classmethod called as `cls._center_xi_realizations(state)`;
+    # a recording wrapper is set on the concrete class for the duration of the fit (the real method is the one that runs) and removed
+    # in `finally`.  The step ALONE is checked (the sources centring that follows is not a gauge change and is not part of it).
+    cls, name = type(model), "_center_xi_realizations"
+    had = cls.__dict__.get(name)
+    centre_calls = []
+    if kind in KINDS_MIXTURE:
+        orig = getattr(cls, name)
+
+        def centre(c, state):
+            k = len(centre_calls) + 1
+            done = {}
+
+            def call(st):
+                orig(st)
+                done["r"] = True
+            f2, i2 = recentre_failures(kind, model, state, call=call)
+            centre_calls.append(dict(i2, k=k))
+            fails.extend(x + (k,) for x in f2)
+            if "r" not in done:
+                raise _StopFit()
+        setattr(cls, name, classmethod(centre))
     try:
         synth.fit(kind, n_iter=inp["n_iter"], seed=inp["seed"], n_ind=inp["n_ind"], n_feat=nf, source_dimension=sd, model=model)
     except _StopFit:
@@ -1545,6 +1577,17 @@ def eval_fit(inp):
             del model.compute_sufficient_statistics
         except AttributeError:
             pass
+        if kind in KINDS_MIXTURE:
+            if had is not None:
+                setattr(cls, name, had)
+            else:
+                delattr(cls, name)
+    if kind in KINDS_MIXTURE:
+        for rec, c in zip(log, centre_calls):
+            rec.update({k: v for k, v in c.items() if k != "k"})
+        if not fails and len(centre_calls) != inp["n_iter"]:
+            fails.append((f"fit:{kind}:centring-calls", f"_center_xi_realizations was called {len(centre_calls)} times in a fit of {inp['n_iter']} iterations",
+                          inp["n_iter"], len(centre_calls), len(centre_calls)))
     if not fails and len(log) != inp["n_iter"]:
         fails.append((f"fit:{kind}:statistics-calls", f"compute_sufficient_statistics was called {len(log)} times in a fit of {inp['n_iter']} iterations",
                       inp["n_iter"], len(log), len(log)))
@@ -1552,7 +1595,7 @@ def eval_fit(inp):
 
 
 FIT_CONFIGS = [("logistic", 3, 2, 6), ("logistic", 1, None, 4), ("linear", 3, 1, 5), ("joint", 3, 1, 5), ("joint", 1, None, 4),
-               ("shared_speed_logistic", 3, 1, 4)]
+               ("shared_speed_logistic", 3, 1, 4), ("mixture_logistic", 3, 1, 4)]
 FIT_CONFIGS_THOROUGH = [("logistic", 4, 3, 25), ("logistic", 3, 0, 12), ("linear", 1, None, 12), ("linear", 4, 2, 20), ("joint", 3, 2, 20),
                         ("shared_speed_logistic", 4, 2, 15)]
 
@@ -1563,7 +1606,7 @@ def search_fits(run: Run, thorough: bool):
         fails, log = eval_fit(inp)
         for rec in log:
             run.case(("fit", kind, nf, sd, n_iter, inp["seed"], rec["k"]),
-                     nontrivial=(kind in KINDS_GAUGE and abs(rec.get("mean_before", 0.0)) > 1e-4) or rec.get("ortho:mixing-row-nontrivial", False))
+                     nontrivial=(kind in KINDS_STEP and abs(rec.get("mean_before", 0.0)) > 1e-4) or rec.get("ortho:mixing-row-nontrivial", False))
             run.count("kind", f"fit:{kind}/{'sources' if sd else 'no-sources'}")
         if log and len(run.samples) < 5:
             run.sample(dict(inp, iterations=[{k: (round(v, 10) if isinstance(v, float) else v) for k, v in r.items()} for r in log[:3]]))
